@@ -104,6 +104,13 @@ var scenarios = []schedrig.Scenario{
 		w.Until(func() bool { return w.Seen("key:Shift+F3") && w.Seen("key:F3") })
 		w.Vx.Close()
 	}},
+	{Name: "colour-query-unanswered", Queue: 8, Caps: refterm.CapRGB | refterm.CapSync | refterm.CapOSC11, Body: func(w *schedrig.World) {
+		// the terminal answered OSC 11 at start-up (so the capability is on) and now stays silent
+		w.Con.Mute = true
+		_ = w.Vx.QueryBackground()
+		w.Con.Mute = false
+		w.Vx.Close()
+	}},
 	{Name: "clipboard", Queue: 8, Hold: true, Body: func(w *schedrig.World) {
 		vsched.AddEnv("terminal-replies", true, func() bool { return len(w.Con.Held) > 0 }, func() { w.Con.Release() })
 		ctx, cancel := vctx.WithTimeout(vctx.Background(), 20*time.Millisecond)
@@ -198,5 +205,5 @@ var scenarios = []schedrig.Scenario{
 }
 
 func main() {
-	schedrig.Main("C10", scenarios, "posting goroutines with a 2-slot and a 16-slot queue, SyncFunc, Resize, typed input, lone ESC around the timer, rendering against input, CursorPosition (once, twice, unanswered then F3) and ClipboardPop with replies early/late/never, Suspend/Resume plain / with ESC pending / with a full queue, Close with a full queue, SIGWINCH, SIGTERM, spinner widget")
+	schedrig.Main("C10", scenarios, "posting goroutines with a 2-slot and a 16-slot queue, SyncFunc, Resize, typed input, lone ESC around the timer, rendering against input, CursorPosition (once, twice, unanswered then F3) and ClipboardPop with replies early/late/never, a colour query that is never answered, Suspend/Resume plain / with ESC pending / with a full queue, Close with a full queue, SIGWINCH, SIGTERM, spinner widget")
 }
